@@ -17,7 +17,7 @@ ID = "C08"
 TECHNIQUE = "stateless schedule + fault exploration (DFS, prefix replay) of disposable enter/exit completions and one cancellation on the real scope, call-log oracle"
 RULE = (
     "scopes with 0..k disposables, each enter/exit in {ok, raise, suspend then ok, suspend then "
-    "raise} and yielding none/one/two states (multisets: disposables are symmetric), body in "
+    "raise} (+ exit raising a non-Exception BaseException) and yielding none/one/two states (multisets: disposables are symmetric), body in "
     "{return, raise, cancelled at any quiescent point incl. during enter and exit}; every "
     "completion order; non-trivial = some enter or exit fails or suspends, or the body does not "
     "return normally"
